@@ -385,8 +385,18 @@ Section CG.
     else cg_loop itmax bnrm tol 0%Z x0 r r (n1 O) err0.
 End CG.
 
+(* pmf_grid_too_small (after the fix "2-D/3-D PMF integration on a grid with a single point ..."): the constructor raises an
+   input error and integrate() returns 0 without touching data or err when a dimension of the PMF grid has fewer
+   than two points (only possible for a periodic variable whose bin width is its period) *)
+Definition shape_ok2 {T} (sh : shape2 (T:=T)) : bool :=
+  (2 <=? npmf (px sh) (nxg sh)) && (2 <=? npmf (py sh) (nyg sh)).
+Definition shape_ok3 {T} (sh : shape3 (T:=T)) : bool :=
+  (2 <=? npmf (qx sh) (mxg sh)) && (2 <=? npmf (qy sh) (myg sh)) && (2 <=? npmf (qz sh) (mzg sh)).
+
 (* integrate(itmax, tol, err), nd == 2 / nd == 3: solve  atimes(data) = divergence  starting from data *)
 Definition integrate2 {T} (O : NumOps T) (sh : shape2) (itmax : nat) (tol : T) (D data : ix2 -> T) (err0 : T) :=
-  cg_solve O ix2 ix2_eqb (all_ix2 sh) (atimes2 O sh) itmax tol D data err0.
+  if shape_ok2 sh then cg_solve O ix2 ix2_eqb (all_ix2 sh) (atimes2 O sh) itmax tol D data err0
+  else ((data, D), (0, err0)).
 Definition integrate3 {T} (O : NumOps T) (sh : shape3) (itmax : nat) (tol : T) (D data : ix3 -> T) (err0 : T) :=
-  cg_solve O ix3 ix3_eqb (all_ix3 sh) (atimes3 O sh) itmax tol D data err0.
+  if shape_ok3 sh then cg_solve O ix3 ix3_eqb (all_ix3 sh) (atimes3 O sh) itmax tol D data err0
+  else ((data, D), (0, err0)).
